@@ -77,3 +77,16 @@ def match_expect(r, exp):
     if isinstance(exp, list):
         return isinstance(r, list) and len(r) >= len(exp) and all(match_expect(a, b) for a, b in zip(r, exp))
     return r == exp
+
+
+def print_check(fast=True, timeout=120):
+    """Runs the native print corpus (values x option sets x short-writing / failing sinks). -> dict with 'bad' list (decoded)."""
+    try:
+        p = subprocess.run([binary(fast), "printcheck"], capture_output=True, text=True, timeout=timeout)
+    except subprocess.TimeoutExpired:
+        return {"crash": "timeout"}
+    if p.returncode != 0:
+        return {"crash": "exit %d" % p.returncode, "stderr": p.stderr[:600]}
+    d = json.loads(p.stdout.strip().split("\n")[-1])
+    d["bad"] = [bytes.fromhex(x).decode("utf-8", "replace") for x in d.get("bad", [])]
+    return d
